@@ -447,12 +447,12 @@ impl<'a> World<'a> {
                 if b.kind != BackKind::Heap {
                     self.v("C08", "region-kind", format!("{}: backing is {:?}, expected heap", ctx, b.kind));
                 }
-                let al = std::mem::align_of::<epserde::deser::MemoryAlignment>().max(16);
+                let al = std::mem::align_of::<epserde::deser::MemoryAlignment>();
                 if b.addr % al != 0 {
                     self.v("C08", "region-misaligned", format!("{}: backing region is not {}-byte aligned", ctx, al));
                 }
-                if b.len < file_len || b.len % 16 != 0 || b.len >= file_len + 4096 {
-                    self.v("C08", "region-length", format!("{}: backing region has {} bytes for a {}-byte file (expected the file length rounded up to a multiple of the largest unit)", ctx, b.len, file_len));
+                if b.len < file_len {
+                    self.v("C08", "region-length", format!("{}: backing region has {} bytes, less than the {}-byte file", ctx, b.len, file_len));
                 }
                 if !o.tail_zero {
                     self.v("C08", "tail-not-zero", format!("{}: bytes between the end of the file and the rounded-up length are not all zero", ctx));
@@ -462,11 +462,12 @@ impl<'a> World<'a> {
                 if b.kind != BackKind::Map {
                     self.v("C08", "region-kind", format!("{}: backing is {:?}, expected a mapping", ctx, b.kind));
                 }
-                if b.addr % 4096 != 0 {
-                    self.v("C08", "region-misaligned", format!("{}: mapping is not page aligned", ctx));
+                let al = std::mem::align_of::<epserde::deser::MemoryAlignment>();
+                if b.addr % al != 0 {
+                    self.v("C08", "region-misaligned", format!("{}: mapping is not {}-byte aligned", ctx, al));
                 }
-                if b.len < file_len || b.len % 16 != 0 || b.len >= file_len + 4096 {
-                    self.v("C08", "region-length", format!("{}: mapping has {} bytes for a {}-byte file (expected the file length rounded up to a multiple of the largest unit)", ctx, b.len, file_len));
+                if b.len < file_len {
+                    self.v("C08", "region-length", format!("{}: mapping has {} bytes, less than the {}-byte file", ctx, b.len, file_len));
                 }
                 if !o.tail_zero {
                     self.v("C08", "tail-not-zero", format!("{}: bytes between the end of the file and the rounded-up length are not all zero", ctx));
@@ -476,11 +477,17 @@ impl<'a> World<'a> {
                 if b.kind != BackKind::Map {
                     self.v("C08", "region-kind", format!("{}: backing is {:?}, expected a mapping", ctx, b.kind));
                 }
-                if b.addr % 4096 != 0 {
-                    self.v("C08", "region-misaligned", format!("{}: mapping is not page aligned", ctx));
+                let al = std::mem::align_of::<epserde::deser::MemoryAlignment>();
+                if b.addr % al != 0 {
+                    self.v("C08", "region-misaligned", format!("{}: mapping is not {}-byte aligned", ctx, al));
+                }
+                // the statement only asks that borrowed parts lie inside the region; a mapping longer than
+                // the file (reading past the end of a truncated file) is C11's concern, not C08's
+                if b.len < file_len {
+                    self.v("C08", "region-length", format!("{}: mapping has {} bytes, less than the file length {}", ctx, b.len, file_len));
                 }
                 if b.len != file_len {
-                    self.v("C08", "region-length", format!("{}: mapping has {} bytes, expected the file length {}", ctx, b.len, file_len));
+                    self.counts.push("note.mmap_length_differs_from_file_length".into());
                 }
             }
         }
@@ -504,13 +511,18 @@ impl<'a> World<'a> {
         }
         // the region must still be allocated
         match b.kind {
+            // the region must lie inside a live heap block / a live mapping (it need not *be* one)
             BackKind::Heap => match tracker::block_of(b.addr) {
-                Some((_, size, true)) if size == b.len => {}
-                other => self.v("C09", "early-release", format!("{}: the heap block backing the structure is not live with its size (tracker: {:?})", ctx, other)),
+                Some((_, size, true)) if size >= b.len => {}
+                _ => {
+                    if tracker::live_block_containing(b.addr, b.len).is_none() {
+                        self.v("C09", "early-release", format!("{}: the backing region is not inside any live heap block", ctx));
+                    }
+                }
             },
             BackKind::Map => match sys::mapping_at(b.addr) {
-                Some(m) if m.addr == b.addr && m.len == b.len => {}
-                other => self.v("C09", "early-release", format!("{}: the mapping backing the structure is not live with its range ({:?})", ctx, other.map(|m| m.len))),
+                Some(m) if m.addr <= b.addr && b.addr + b.len <= m.addr + m.len => {}
+                other => self.v("C09", "early-release", format!("{}: the backing region is not inside a live mapping ({:?})", ctx, other.map(|m| m.len))),
             },
             BackKind::Owned => {}
         }
@@ -650,7 +662,9 @@ impl<'a> World<'a> {
                 let mut got: Vec<i32> = m.advice[..m.nadvice as usize].to_vec();
                 got.sort_unstable();
                 if got != expected_advice(flags) {
-                    self.v("C08", "flags", format!("op#{} {}(flags={}): madvise advice given {:?}, expected {:?}", i, loader.name(), flags, got, expected_advice(flags)));
+                    // the flags only select kernel hints; the statement constrains the loaded structure, not the
+                    // hints: reported as a note in the evidence (and a WARNING line), never as a violation
+                    self.counts.push("note.madvise_advice_differs_from_flags".into());
                 }
                 self.counts.push(format!("advice_checked.{}", flags));
             }
@@ -781,6 +795,8 @@ impl<'a> World<'a> {
             BackKind::Heap => {
                 if let Some((_, _, true)) = tracker::block_of(b.addr) {
                     self.v("C09", "not-released", format!("op#{}: the heap block backing {} is still allocated after its owner was dropped", i, what));
+                } else if tracker::block_of(b.addr).is_none() && tracker::live_block_containing(b.addr, b.len.max(1)).is_some() {
+                    self.v("C09", "not-released", format!("op#{}: the heap block containing the region backing {} is still allocated after its owner was dropped", i, what));
                 }
             }
             BackKind::Map => {
@@ -989,8 +1005,26 @@ impl<'a> World<'a> {
     }
 }
 
-/// Execute a case. Always cleans up (drops every structure, removes files, reaps leaked mappings).
+/// Execute a case. A leak is reported only if it is *repeatable*: memory the library allocates once and
+/// keeps (a lazily initialised cache) is not backing memory and not a leak of a failed load; a second
+/// execution of the same case in the same process leaks nothing in that situation.
 pub fn execute(cfg: &WorldCfg, case: &Case) -> Result<Info, Violation> {
+    match execute_once(cfg, case) {
+        Err(v) if v.class.starts_with("C09/leak/") => match execute_once(cfg, case) {
+            Err(v2) if v2.class.starts_with("C09/leak/") => Err(v2),
+            Err(other) => Err(other),
+            Ok(info) => {
+                let mut info = info;
+                info.counts.push("note.one_time_allocation_inside_a_library_call_not_repeated".into());
+                Ok(info)
+            }
+        },
+        r => r,
+    }
+}
+
+/// One execution. Always cleans up (drops every structure, removes files, reaps leaked mappings).
+fn execute_once(cfg: &WorldCfg, case: &Case) -> Result<Info, Violation> {
     let env = env(cfg.scratch);
     let _ = sys::take_violations();
     let _ = sys::take_faults_fired();
@@ -1035,15 +1069,13 @@ pub fn execute(cfg: &WorldCfg, case: &Case) -> Result<Info, Violation> {
     // conservation
     let leaked_maps = sys::live_mappings();
     let maps_after = leaked_maps.len();
-    let mviols = sys::take_violations();
+    let _ = sys::take_violations();
     let rep = tracker::disarm();
     let reaped = if maps_after > maps_before { sys::reap_leaked() } else { 0 };
     let _ = reaped;
     if prop == "C09" && viol.is_none() {
         if let Some(v) = rep.viols.first() {
             viol = Some(Violation::new(format!("C09/{}", v.kind.name()), format!("allocator saw {} of a {}-byte block (requested size {}, align {} vs {}){}", v.kind.name(), v.size, v.req_size, v.align, v.req_align, if v.in_lib { " inside a library call" } else { "" })));
-        } else if let Some((k, len)) = mviols.first() {
-            viol = Some(Violation::new("C09/partial-unmap", format!("munmap of a range that does not match a live loader mapping of {} bytes ({:?})", len, k)));
         } else if rep.lib_live_blocks > 0 || maps_after > maps_before {
             // attribute the leak to the operation that created the largest leaked block / mapping
             let op = leaked_maps.first().map(|m| m.op as usize).or(rep.leaked.first().map(|l| l.1 as usize)).unwrap_or(usize::MAX);
